@@ -52,6 +52,34 @@ class Ctx:
         shutil.rmtree(self.scratch, ignore_errors=True)
 
 
+def full_device(ctx):
+    """A character device that refuses every write with ENOSPC, like /dev/full, but private to this
+    run: a node (1,7) made in the scratch directory. A changed lace run by root can replace the node
+    it is told to write to (rename over it): that must never be the machine's own /dev/full. Falls back
+    to /dev/full when no node can be made; None when neither is a device that behaves."""
+    import stat
+    path = os.path.join(ctx.scratch, "full.dev")
+    try:
+        if not os.path.lexists(path):
+            os.mknod(path, 0o666 | stat.S_IFCHR, os.makedev(1, 7))
+    except OSError:
+        path = "/dev/full"
+    try:
+        st = os.lstat(path)
+        if not stat.S_ISCHR(st.st_mode) or st.st_rdev != os.makedev(1, 7):
+            return None
+        fd = os.open(path, os.O_WRONLY)
+        try:
+            os.write(fd, b"x")
+            return None
+        except OSError:
+            return path
+        finally:
+            os.close(fd)
+    except OSError:
+        return None
+
+
 # ------------------------------------------------------------------ builds
 
 def _locked(fn):
